@@ -153,6 +153,7 @@ type Result struct {
 }
 
 type helper struct {
+	lib    bool // a library helper: identifiers of its own package are qualified at the call
 	key    string
 	decl   *ast.FuncDecl
 	lit    *ast.FuncLit     // a local closure (`warn := func(…){…}`) instead of a declared helper
@@ -168,7 +169,9 @@ type helper struct {
 }
 
 type planner struct {
-	rel     string // module-relative package path
+	lib       map[*types.Func]*helper // library helpers (libAllow)
+	libInfo   []*types.Info
+	rel       string              // module-relative package path
 	rewrote   map[*types.Var]bool // lookup tables some read of which was rewritten
 	keepAlive map[*ast.File]string
 	res       *Result
@@ -193,15 +196,58 @@ type planner struct {
 
 // Plan computes the normalised sources of every root package that declares
 // helpers absent from known. inRepo restricts the work to the analysed module.
+// libAllow: small generic helpers of the standard library (and k8s.io/utils/ptr)
+// whose source is a plain loop or test. A refactoring that replaces a
+// hand-written loop by one of them is undone by inlining their source like any
+// other helper; identifiers of their own package are qualified.
+var libAllow = map[string][]string{
+	"slices":           {"Contains", "ContainsFunc", "Index", "IndexFunc", "MaxFunc", "MinFunc"},
+	"maps":             {"Copy", "DeleteFunc"},
+	"k8s.io/utils/ptr": {"Deref"},
+}
+
+func libHelpers(pkgs []*packages.Package) (map[*types.Func]*helper, []*types.Info) {
+	out := map[*types.Func]*helper{}
+	var infos []*types.Info
+	packages.Visit(pkgs, nil, func(pp *packages.Package) {
+		names := libAllow[pp.PkgPath]
+		if names == nil || pp.TypesInfo == nil {
+			return
+		}
+		infos = append(infos, pp.TypesInfo)
+		for _, f := range pp.Syntax {
+			for _, d := range f.Decls {
+				fd, ok := d.(*ast.FuncDecl)
+				if !ok || fd.Body == nil || fd.Recv != nil {
+					continue
+				}
+				want := false
+				for _, n := range names {
+					if n == fd.Name.Name {
+						want = true
+					}
+				}
+				obj, _ := pp.TypesInfo.Defs[fd.Name].(*types.Func)
+				if !want || obj == nil || bodyNotInlinable(fd.Body) != "" {
+					continue
+				}
+				out[obj] = &helper{key: "library " + pp.PkgPath + "." + fd.Name.Name, decl: fd, obj: obj, sig: obj.Type().(*types.Signature), file: f, pkg: pp, lib: true, body: fd.Body}
+			}
+		}
+	})
+	return out, infos
+}
+
 func Plan(pkgs []*packages.Package, known map[string]bool, module string) *Result {
 	res := &Result{Overlay: map[string][]byte{}}
+	lib, libInfo := libHelpers(pkgs)
 	for _, p := range pkgs {
 		if !strings.HasPrefix(p.PkgPath, module) || len(p.Syntax) == 0 || p.TypesInfo == nil {
 			continue
 		}
 		rel := strings.TrimPrefix(strings.TrimPrefix(p.PkgPath, module), "/")
 		pl := &planner{res: res, pkg: p, rel: rel, helpers: map[*types.Func]*helper{}, uses: map[*ast.Ident]types.Object{}, origin: map[ast.Node]ast.Node{},
-			changed: map[*ast.File]bool{}, addImports: map[*ast.File]map[string]string{}}
+			changed: map[*ast.File]bool{}, addImports: map[*ast.File]map[string]string{}, lib: lib, libInfo: libInfo}
 		for _, f := range p.Syntax {
 			for _, d := range f.Decls {
 				fd, ok := d.(*ast.FuncDecl)
@@ -576,6 +622,11 @@ func (pl *planner) useOf(id *ast.Ident) types.Object {
 	if o := pl.pkg.TypesInfo.Uses[id]; o != nil {
 		return o
 	}
+	for _, in := range pl.libInfo {
+		if o := in.Uses[id]; o != nil {
+			return o
+		}
+	}
 	return nil
 }
 
@@ -585,6 +636,13 @@ func (pl *planner) typeOf(e ast.Expr) (types.TypeAndValue, bool) {
 		return types.TypeAndValue{}, false
 	}
 	tv, ok := pl.pkg.TypesInfo.Types[r]
+	if !ok {
+		for _, in := range pl.libInfo {
+			if tv, ok = in.Types[r]; ok {
+				break
+			}
+		}
+	}
 	return tv, ok
 }
 
@@ -625,7 +683,10 @@ func (pl *planner) target(c *ast.CallExpr) *helper {
 	if fn == nil {
 		return nil
 	}
-	return pl.helpers[fn]
+	if h := pl.helpers[fn]; h != nil {
+		return h
+	}
+	return pl.lib[fn]
 }
 
 // dropDeadClosures removes the definition of a closure all of whose calls were
@@ -1348,6 +1409,11 @@ func (pl *planner) expandMulti(c *ast.CallExpr) (pre []ast.Stmt, rs []ast.Expr, 
 			return skip("generic call that is not a plain call")
 		}
 		inst, ok := pl.pkg.TypesInfo.Instances[oid]
+		for _, in := range pl.libInfo {
+			if !ok {
+				inst, ok = in.Instances[oid]
+			}
+		}
 		isig, _ := inst.Type.(*types.Signature)
 		if !ok || isig == nil || inst.TypeArgs.Len() != sig.TypeParams().Len() {
 			return skip("generic call without a recorded instance")
@@ -1569,6 +1635,37 @@ func (pl *planner) expandMulti(c *ast.CallExpr) (pre []ast.Stmt, rs []ast.Expr, 
 		}, nil)
 		if bad != "" || qerr() != "" {
 			return skip("generic body: " + bad + qerr())
+		}
+	}
+	if h.lib {
+		bad := ""
+		own := h.pkg.Types.Scope()
+		astutil.Apply(body, func(cur *astutil.Cursor) bool {
+			id, ok := cur.Node().(*ast.Ident)
+			if !ok {
+				return true
+			}
+			if par, isSel := cur.Parent().(*ast.SelectorExpr); isSel && par.Sel == id {
+				return true
+			}
+			if kv, isKV := cur.Parent().(*ast.KeyValueExpr); isKV && kv.Key == ast.Expr(id) {
+				if v, isVar := pl.useOf(id).(*types.Var); isVar && v.IsField() {
+					return true
+				}
+			}
+			o := pl.useOf(id)
+			if o == nil || o.Parent() != own {
+				return true
+			}
+			if !o.Exported() {
+				bad = "uses the unexported " + o.Name() + " of its package"
+				return false
+			}
+			cur.Replace(&ast.SelectorExpr{X: ast.NewIdent(q(h.pkg.Types)), Sel: ast.NewIdent(o.Name())})
+			return false
+		}, nil)
+		if bad != "" || qerr() != "" {
+			return skip("library body: " + bad + qerr())
 		}
 	}
 	// labels are function-wide: every copy of the body gets its own
@@ -1858,6 +1955,9 @@ func (pl *planner) shadowed(h *helper, scope *types.Scope, pos token.Pos) string
 			return false
 		default:
 			par := o.Parent()
+			if h.lib && o.Pkg() != nil && o.Pkg() == h.pkg.Types && par == o.Pkg().Scope() {
+				return true // qualified with its package at the call (exported ones; the others make the body unusable there)
+			}
 			if par == types.Universe || (o.Pkg() != nil && par == o.Pkg().Scope()) {
 				_, co := scope.LookupParent(id.Name, pos)
 				if co != o {
@@ -1903,15 +2003,63 @@ func (pl *planner) emit(f *ast.File) {
 	for n, path := range pl.addImports[f] {
 		addImport(f, path, n, pl.pkg)
 	}
-	var buf bytes.Buffer
-	if n := pl.keepAlive[f]; n != "" {
-		// the import may have lost its last use
-		defer func() {
-			if b, ok := pl.res.Overlay[name]; ok {
-				pl.res.Overlay[name] = append(b, []byte("\nvar _ = "+n+".Copy[map[string]struct{}, map[string]struct{}]\n")...)
+	// an import whose last use was inlined away would not compile
+	{
+		used := map[string]bool{}
+		ast.Inspect(f, func(n ast.Node) bool {
+			if se, ok := n.(*ast.SelectorExpr); ok {
+				if id, ok := se.X.(*ast.Ident); ok {
+					used[id.Name] = true
+				}
 			}
-		}()
+			return true
+		})
+		nameOf := func(is *ast.ImportSpec) string {
+			if is.Name != nil {
+				return is.Name.Name
+			}
+			path := strings.Trim(is.Path.Value, `"`)
+			if ip := pl.pkg.Imports[path]; ip != nil && ip.Name != "" {
+				return ip.Name
+			}
+			return path[strings.LastIndex(path, "/")+1:]
+		}
+		dropped := map[*ast.ImportSpec]bool{}
+		for _, is := range f.Imports {
+			if n := nameOf(is); n != "_" && n != "." && !used[n] {
+				dropped[is] = true
+			}
+		}
+		if len(dropped) > 0 {
+			var imps []*ast.ImportSpec
+			for _, is := range f.Imports {
+				if !dropped[is] {
+					imps = append(imps, is)
+				}
+			}
+			f.Imports = imps
+			var decls []ast.Decl
+			for _, d := range f.Decls {
+				gd, ok := d.(*ast.GenDecl)
+				if !ok || gd.Tok != token.IMPORT {
+					decls = append(decls, d)
+					continue
+				}
+				var specs []ast.Spec
+				for _, sp := range gd.Specs {
+					if is, ok := sp.(*ast.ImportSpec); !ok || !dropped[is] {
+						specs = append(specs, sp)
+					}
+				}
+				if len(specs) > 0 {
+					gd.Specs = specs
+					decls = append(decls, gd)
+				}
+			}
+			f.Decls = decls
+		}
 	}
+	var buf bytes.Buffer
 	if err := format.Node(&buf, fset, f); err != nil {
 		pl.res.Skipped = append(pl.res.Skipped, name+": cannot print normalised file: "+err.Error())
 		return
